@@ -19,7 +19,10 @@ from mdvc.verify import contract
 INC = dict(include=("mdtraj/geometry/include",))
 
 
-CASES = [(b, hq) for b in ("no-box", "orthorhombic", "triclinic-b-skewed", "triclinic-c-skewed") for hq in ((2, 1), (1, 2))]
+import os  # noqa: E402
+
+_LISTS = ((2, 1), (1, 2), (2, 2)) if os.environ.get("MDVC_TIER") == "thorough" else ((2, 1), (1, 2))
+CASES = [(b, hq) for b in ("no-box", "orthorhombic", "triclinic-b-skewed", "triclinic-c-skewed") for hq in _LISTS]
 
 
 def compute_neighbors(ctx, case):
